@@ -57,7 +57,7 @@
 #define NE (4 * NT)
 #define POISON 777.25
 
-static long ncases(int tier) { return tier ? 3600000 : 120000; }
+static long ncases(int tier) { return tier ? 3600000 : 240000; }
 
 enum { MX_PROD, MX_PROD_PLAIN, MX_PROD_UNR, MX_LAW_T, MX_LAW_DIST, MX_MATVEC, MX_VECMAT, MX_OUTER, MX_TRACE, MX_NORM,
        MX_NORMALIZE, MX_COLAVG, MX_ROWAVG, MX_COLSD, MX_COLVAR, MX_COLRMS, MX_CENTER, MX_COV, MX_PSD, MX_VDOT, MX_VMOD,
